@@ -118,6 +118,8 @@ Definition sv_handle_ack (s : server) (a : sv_acc) (addr nonce_ack now_ms vnow :
             (mkServer (sv_cfg s1) (sv_objs s1) (sv_clients s1) (sv_active s1 ++ [id]) (sv_events s1) (sv_t0 s1) (sv_seed s1),
              acc_event a (EvConnect addr))
           else (s, a)
+      | SvActive h t0 _ disc =>
+          (sv_set_obj s id (SvActive h t0 (now_ms + ec_active_timeout (svc_ec (sv_cfg s))) disc), a)
       | _ => (s, a)
       end
   end.
@@ -382,8 +384,10 @@ Definition cl_handle_syn_ack (c : client) (a : cl_acc) (nonce_ack nonce mrr mra 
         let h := fold_left (fun hh e => hc_send hh (fst (fst e)) (snd (fst e)) (snd e)) sends h0 in
         (cl_set c (ClActive ln nonce h vnow (now_ms + ec_active_timeout (cl_ec c)) None), ca_event a1 (EvConnect 0))
       else (c, a)
-  | ClActive ln rn _ _ _ _ =>
-      if (nonce_ack =? ln) && (nonce =? rn) then (c, ca_send a (write_handshake_ack nonce)) else (c, a)
+  | ClActive ln rn h t0 _ disc =>
+      if (nonce_ack =? ln) && (nonce =? rn)
+      then (cl_set c (ClActive ln rn h t0 (now_ms + ec_active_timeout (cl_ec c)) disc), ca_send a (write_handshake_ack nonce))
+      else (c, a)
   | _ => (c, a)
   end.
 
